@@ -94,3 +94,53 @@ def explore(system, depth, report, prop, roots=((),), stats=None, merge=True):
     report.add("distinct_nontrivial", nstates)
     report.set("max_depth", max(maxdepth, report.cov.get("max_depth", 0)))
     return nstates, ntrans
+
+
+class ModuleState:
+    """Snapshot / restore of the data attributes of modules, so that `fresh()` really is a pristine
+    process state even if the library keeps hidden module-level state (flags, caches, singletons)."""
+
+    def __init__(self, modules):
+        import copy
+        import types
+
+        self.modules = list(modules)
+        self._skip = (types.FunctionType, types.ModuleType, type, types.BuiltinFunctionType)
+        self.snap = {}
+        for m in self.modules:
+            d = {}
+            for k, v in vars(m).items():
+                if k.startswith("__") or isinstance(v, self._skip):
+                    continue
+                try:
+                    d[k] = copy.deepcopy(v)
+                except Exception:  # noqa: BLE001
+                    d[k] = v
+            self.snap[m] = d
+
+    def restore(self):
+        import copy
+
+        for m, d in self.snap.items():
+            for k in [k for k, v in vars(m).items() if not k.startswith("__") and not isinstance(v, self._skip) and k not in d]:
+                delattr(m, k)
+            for k, v in d.items():
+                cur = getattr(m, k, None)
+                if isinstance(cur, dict) and isinstance(v, dict):
+                    if cur != v:
+                        cur.clear()
+                        cur.update(copy.deepcopy(v))
+                elif isinstance(cur, list) and isinstance(v, list):
+                    if cur != v:
+                        cur[:] = copy.deepcopy(v)
+                elif isinstance(cur, set) and isinstance(v, set):
+                    if cur != v:
+                        cur.clear()
+                        cur.update(v)
+                else:
+                    try:
+                        same = cur is v or cur == v
+                    except Exception:  # noqa: BLE001
+                        same = False
+                    if not same:
+                        setattr(m, k, copy.deepcopy(v))
